@@ -43,6 +43,23 @@ def replay_chunk(args):
     return out
 
 
+def replay_walks(args):
+    """Whole walks through the TLC graph: every step of the walk is compared (the engine's hidden state -
+    tasks being torn down, superseded registrations - depends on the whole history, not on the abstract state)."""
+    out = {"replayed": 0, "bad": [], "steps": 0}
+    for steps, wants in args["walks"]:
+        r = actors.run_ops([{"op": s} for s in steps])
+        out["replayed"] += 1
+        out["steps"] += len(steps)
+        for i, (post, want) in enumerate(zip(r, wants)):
+            diff = [f for f in FIELDS if post.get(f) != want.get(f)]
+            if diff:
+                out["bad"].append({"steps": steps[:i + 1], "diff": diff, "want": {f: want[f] for f in diff},
+                                   "got": {f: post[f] for f in diff}})
+                break
+    return out
+
+
 def _dummy():
     sp = gen.Spec({"id": "m", "initial": "s", "states": {"s": {}}}, "actors", "actor-driver")
     return pipeline.Built(sp)
@@ -58,6 +75,15 @@ def run(prop: str, tier: str, seed: int) -> int:
         edges, stats, errs, rc, wall = actors.model_check(os.path.join(wd, "mc"), actors.OPS, 4 if q else 5, 5, workers=8)
         if rc != 0 or errs:
             errors.append(f"TLC rc={rc} " + "; ".join(errs[:3]))
+        # second, deeper exploration restricted to the operations that own hidden engine state (delayed sends that
+        # supersede each other, cancel, stopping the target) - histories the full table only reaches at greater depth
+        focus = [o for o in actors.OPS if o["name"] in ("SP_w_a1", "SP_w_a2_s1", "CAN_i1", "SC_a1", "ST_a1_X") or o["name"].startswith("STD_")]
+        edges2, stats2, errs2, rc2, _w2 = actors.model_check(os.path.join(wd, "mc2"), focus, 6 if q else 7, 5, workers=8)
+        if rc2 != 0 or errs2:
+            errors.append(f"TLC (focus) rc={rc2} " + "; ".join(errs2[:3]))
+        have = {json.dumps([e["from"], e["step"], e["to"]], sort_keys=True) for e in edges}
+        edges = edges + [e for e in edges2 if json.dumps([e["from"], e["step"], e["to"]], sort_keys=True) not in have]
+        stats = (stats[0] + stats2[0], stats[1] + stats2[1])
         key = lambda s: json.dumps(s, sort_keys=True)
         succ: Dict[str, list] = {}
         for e in edges:
@@ -90,12 +116,38 @@ def run(prop: str, tier: str, seed: int) -> int:
                 # the model says the ALGORITHM breaks the property here; it counts once the replay below agrees
                 violations.append((steps, e))
         chunks = [jobs[i::NPROC] for i in range(NPROC)]
+        # random whole walks (delayed-send and stop operations over-represented: they own the hidden state)
+        import random as _random
+        rng = _random.Random(seed)
+        walks = []
+        if inits:
+            for _ in range(2500 if q else 40000):
+                k, steps, wants = key(inits[0]), [], []
+                for _d in range(6 if q else 8):
+                    nxt = succ.get(k) or []
+                    if not nxt:
+                        break
+                    hot = [e for e in nxt if name(e).startswith(("STD_", "CAN_", "SC_", "advance", "stop"))]
+                    e = rng.choice(hot) if hot and rng.random() < 0.6 else rng.choice(nxt)
+                    steps.append(name(e))
+                    wants.append(e["to"])
+                    k = key(e["to"])
+                if steps:
+                    walks.append((steps, wants))
+        wchunks = [walks[i::NPROC] for i in range(NPROC)]
         import concurrent.futures as cf
 
         with cf.ProcessPoolExecutor(max_workers=NPROC) as ex:
             results = list(ex.map(replay_chunk, [{"paths": c} for c in chunks if c]))
-        replayed = sum(r["replayed"] for r in results)
+            wresults = list(ex.map(replay_walks, [{"walks": c} for c in wchunks if c]))
+        replayed = sum(r["replayed"] for r in results) + sum(r["steps"] for r in wresults)
         bad = [b for r in results for b in r["bad"]]
+        seen_w = set()
+        for r in wresults:
+            for b in r["bad"]:
+                if tuple(b["steps"]) not in seen_w:
+                    seen_w.add(tuple(b["steps"]))
+                    bad.append(b)
         badset = {tuple(b["steps"]) for b in bad}
         viols = []
         for steps, e in violations:
@@ -111,7 +163,7 @@ def run(prop: str, tier: str, seed: int) -> int:
             viols.append(v)
         cov = {"states": stats[1], "transitions": stats[0], "traces_validated_against_impl": replayed,
                "evaluations": replayed, "distinct_nontrivial": sum(1 for e in edges if e["from"] != e["to"]),
-               "divergent_edges": len(bad), "exhaustive": True, "operations": [o["name"] for o in actors.OPS],
+               "divergent_edges": len(bad), "exhaustive": True, "random_walks": len(walks), "operations": [o["name"] for o in actors.OPS],
                "depth": 4 if q else 5,
                "samples": [{"steps": jobs[len(jobs) // 2][0], "to": jobs[len(jobs) // 2][1]}] if jobs else [{"note": "none"}],
                "rule": ("all sequences of the 24 driver operations (spawn with auto/explicit/re-used ids and systemIds, sendTo by id / service "
